@@ -164,7 +164,7 @@ func fieldByNumber(md protoreflect.MessageDescriptor, num protoreflect.FieldNumb
 func loadCorpus() []*cfile {
 	var out []*cfile
 	for _, f := range corpus.Matrix() {
-		fd, err := protodesc.NewFile(f.Descriptor(), nil)
+		fd, err := protodesc.NewFile(f.Descriptor(), corpusFiles)
 		if err != nil {
 			hx.Must(fmt.Errorf("corpus file %s is not a valid descriptor: %v", f.Base, err))
 		}
